@@ -141,7 +141,7 @@ def direct_oracle(c: B.Case):
 def gen_cases(run: Run, n: int):
     rng = run.rng
     g = B.GenX(rng, leak_p=0.0)
-    modes = ["asis"] * 2 + ["after_failed_build"] * 3 + ["permute"] * 4 + ["subset"] * 3 + ["extra"] * 3 + ["varied_types"] * 4 + ["generated_name_of_missing"] * 2 + ["output_name_clash"] * 3 + ["bad_input_kind", "bad_output_kind", "non_argument_input", "no_outputs"]
+    modes = ["asis"] * 2 + ["after_failed_build"] * 3 + ["permute"] * 4 + ["subset"] * 3 + ["extra"] * 3 + ["varied_types"] * 4 + ["generated_name_of_missing"] * 2 + ["output_name_clash"] * 3 + ["after_build_under_other_names"] * 4 + ["bad_input_kind", "bad_output_kind", "non_argument_input", "no_outputs"]
     cases = []
     while len(cases) < n:
         ins, outs = g.program()
@@ -164,6 +164,16 @@ def gen_cases(run: Run, n: int):
                 c.pre = first
                 cases.append(c)
                 continue
+        if mode == "after_build_under_other_names":
+            # 1st build (succeeds): the same Vars, the input names rotated among the arguments and other output names.  2nd build
+            # (same process): the request as generated -> which name feeds which Var is decided by THIS request alone.
+            ks, vs = list(ins.keys()), list(ins.values())
+            sh = rng.randint(1, max(1, len(ks) - 1))
+            first = (dict(zip(ks[sh:] + ks[:sh], vs)), {"first_" + k: v for k, v in outs.items()}, rng.random() < 0.5)
+            c = B.Case(dict(ins), dict(outs), rng.random() < 0.5, {"mode": mode, "legal": True})
+            c.pre = first
+            cases.append(c)
+            continue
         i2, o2, drop = make_request(rng, ins, outs, mode)
         cases.append(B.Case(i2, o2, drop, {"mode": mode, "legal": mode != "output_name_clash"}))   # a name clash may be refused
     return cases, g.hist
